@@ -313,6 +313,13 @@ pub fn register(app: &mut App) {
     );
 }
 
+pub fn drain_observed_opt(app: &mut App) -> Vec<Obs> {
+    match app.world_mut().get_resource_mut::<Observed>() {
+        Some(mut o) => std::mem::take(&mut o.0),
+        None => Vec::new(),
+    }
+}
+
 pub fn drain_observed(app: &mut App) -> Vec<Obs> {
     std::mem::take(&mut app.world_mut().resource_mut::<Observed>().0)
 }
